@@ -106,6 +106,67 @@ def check_filter(ctx, out, fp, rule="C02.filter"):
     out.inst(rule, n, 8, ["%s c=%s t=%s -> %s" % r for r in rows], exhaustive=True, note="2 filter modes x 2 x 2 valuations, evaluated on the closure's MIR")
 
 
+def check_inclusive(ctx, out, rule="C02.incl"):
+    """Inclusive and half-open position ranges are not confused. (a) In every function taking a
+    `&RangeInclusive<Position>` the bound derived from `range.end.character` is an inclusive upper
+    bound (`x <= bound` / `x > bound`), in every function taking a `&Range<Position>` it is an
+    exclusive one (`x < bound` / `x >= bound`). (b) No half-open `Range<Position>` is built from the
+    end of an inclusive range without adjustment (the last character - the closing `>` of a start tag -
+    would fall outside)."""
+    n = 0
+    incl_fields = set()
+    for a in ctx.facts.adts.values():
+        for v in a.get("variants", []):
+            for f in v.get("fields", []):
+                if f["ty"].startswith("std::ops::RangeInclusive<blockwatch::Position>"):
+                    incl_fields.add(f["name"])
+    for b in ctx.reachable_bodies():
+        if b.promoted is not None:
+            continue
+        # (b)
+        for bi, j, s in b.assigns():
+            rv = s["rv"]
+            if rv["k"] == "agg" and rv.get("path") == "std::ops::Range" and "blockwatch::Position" in (rv.get("ty") or b.local_ty(s["lhs"]["l"])):
+                labs = ctx.prov.resolve_upvars(b, ctx.prov.read_operand(b, rv["ops"][1]))
+                via = [lab for lab in labs if any(f in lab[2] for f in incl_fields) and "end" in lab[2]]
+                if via and not P.has_const(labs):
+                    out.viol(rule, "%s|%s|range-from-inclusive" % (rule, b.id), ctx.where(b, s["span"]),
+                             "a half-open `Range<Position>` is built whose end is the (inclusive) end of `%s`: the last position of the inclusive range - for a start tag its closing `>` - is no longer inside" % [f for f in incl_fields if f in via[0][2]][0])
+        # (a)
+        if not b.parent:
+            continue
+        parent = ctx.facts.body(b.parent)
+        if parent is None:
+            continue
+        for bi, j, s in b.assigns():
+            rv = s["rv"]
+            if rv["k"] != "bin" or rv["op"] not in ("Lt", "Le", "Gt", "Ge"):
+                continue
+            for side in ("a", "b"):
+                labs = ctx.prov.resolve_upvars(b, ctx.prov.read_operand(b, rv[side]))
+                for lab in labs:
+                    if lab[0] == "param" and tuple(lab[2][:2]) == ("end", "character"):
+                        pty = parent.local_ty(lab[1])
+                        incl = "RangeInclusive<blockwatch::Position>" in pty
+                        excl = (not incl) and "Range<blockwatch::Position>" in pty
+                        if not (incl or excl):
+                            continue
+                        op = rv["op"]
+                        if side == "a":
+                            op = {"Lt": "Gt", "Gt": "Lt", "Le": "Ge", "Ge": "Le"}[op]
+                        # normalised: x OP bound
+                        good = op in (("Le", "Gt") if incl else ("Lt", "Ge"))
+                        if good:
+                            n += 1
+                        else:
+                            out.viol(rule, "%s|%s|%s" % (rule, parent.id, "inclusive" if incl else "exclusive"), ctx.where(b, s["span"]),
+                                     "`%s` takes %s range but compares a change against its end column with `%s`: %s" % (
+                                         parent.name, "an INCLUSIVE" if incl else "a HALF-OPEN", {"Lt": "<", "Le": "<=", "Gt": ">", "Ge": ">="}[op],
+                                         "a change touching only the last character of the range (the `>` of a start tag) is missed" if incl else "a change starting right after the range counts as inside it"))
+                        break
+    out.inst(rule, n, 2, ["RangeInclusive -> `start <= end_col`", "Range -> `start < end_col`"], exhaustive=True)
+
+
 def check_mode(ctx, out, fp):
     n = 0
     callers = []
@@ -290,6 +351,7 @@ def run(ctx, out, tier):
         check_mode(ctx, out, fp)
     check_nonint(ctx, out)
     check_siblings(ctx, out)
+    check_inclusive(ctx, out)
     check_scan(ctx, out)
     check_search(ctx, out)
     check_units(ctx, out)
